@@ -32,7 +32,8 @@ def ev(S, name):
 
 def rec(name):
     def h(I, obj, *a, **kw):
-        ctx().emit(name, obj, tuple(list(x) if isinstance(x, list) else x for x in a), kw)
+        # with the parser's state at the moment the application is called: it may feed more bytes from there
+        ctx().emit(name, obj, tuple(list(x) if isinstance(x, list) else x for x in a), kw, {"state": I.getattr(obj, "state")})
     return h
 
 
@@ -139,8 +140,17 @@ class Step(_Parser):
             return result("data", negotiated=pending)
         return band(result("subnegotiation"), len(t.commands) == len(pending) + 1, veq(t.commands[-1], b))
 
-    ensures = dict(rfc854_decoder_table=_table)
-    canaries = [("                elif b == b\"\\0\":\n                    appDataBuffer.append(b\"\\r\")", "                elif b == b\"\\0\":\n                    pass", "rfc854_decoder_table"),
+    def _settled(S):
+        # applicationDataReceived / commandReceived / negotiate are application code that may call dataReceived again
+        # (a synchronous peer answering AYT): the parser state must already be the one the table prescribes, or the
+        # nested bytes are parsed in the wrong state and the state they leave is overwritten (seeded change C38-3)
+        return band(*[e.snap["state"] == S.new.t.state for e in S.trace if e.name in ("app", "command", "negotiate")])
+
+    ensures = dict(rfc854_decoder_table=_table, parser_state_settled_before_the_application_is_called=_settled)
+    canaries = [("                    self.state = \"data\"\n                    if appDataBuffer:\n                        self.applicationDataReceived(b\"\".join(appDataBuffer))\n                        del appDataBuffer[:]\n                    self.commandReceived(b, None)",
+                 "                    if appDataBuffer:\n                        self.applicationDataReceived(b\"\".join(appDataBuffer))\n                        del appDataBuffer[:]\n                    self.commandReceived(b, None)\n                    self.state = \"data\"",
+                 "parser_state_settled_before_the_application_is_called"),
+                ("                elif b == b\"\\0\":\n                    appDataBuffer.append(b\"\\r\")", "                elif b == b\"\\0\":\n                    pass", "rfc854_decoder_table"),
                 ("                if b == IAC:\n                    appDataBuffer.append(b)\n                    self.state = \"data\"",
                  "                if b == IAC:\n                    self.state = \"data\"", "rfc854_decoder_table")]
 
